@@ -35,6 +35,18 @@ type netCfg struct {
 	// delivered in one burst when the link comes back)
 	Rules []lossRule `json:"rules,omitempty"`
 	Hold  []bool     `json:"hold,omitempty"`
+	// consensus payloads for heights >= HoldBelow get through a stalled link
+	// (0: nothing does): the small high-priority traffic of the open height
+	// arrives before the batch of blocks and the stale traffic
+	HoldBelow uint32 `json:"hold_below,omitempty"`
+}
+
+// holds says whether a message to a node with a stalled inbound link is kept back.
+func (c *netCfg) holds(to int, kind string, height uint32) bool {
+	if !c.flag(c.Hold, to) {
+		return false
+	}
+	return !(kind == "payload" && c.HoldBelow > 0 && height >= c.HoldBelow)
 }
 
 // lossRule drops (Pct percent of) the messages it matches.
@@ -127,6 +139,9 @@ func (c netCfg) summary() string {
 	}
 	if x := idx(c.Hold); x != nil {
 		s += fmt.Sprintf(" inbound-stalled=%v", x)
+		if c.HoldBelow > 0 {
+			s += fmt.Sprintf(" (payloads of heights >= %d pass)", c.HoldBelow)
+		}
 	}
 	for _, r := range c.Rules {
 		s += fmt.Sprintf(" rule{%v %v views %d..%d", r.Kinds, r.Types, r.ViewMin, r.ViewMax)
@@ -163,8 +178,10 @@ type simnet struct {
 }
 
 type heldMsg struct {
-	from int
-	run  func()
+	from   int
+	kind   string
+	height uint32
+	run    func()
 }
 
 func newSimnet(r *rng.R) *simnet {
@@ -178,10 +195,22 @@ func (n *simnet) setCfg(c netCfg) {
 	n.cfg = c
 	var release [][]heldMsg
 	for to, q := range n.held {
-		if len(q) > 0 && !c.flag(c.Hold, to) {
-			release = append(release, q)
+		var out, keep []heldMsg
+		for _, m := range q {
+			if c.holds(to, m.kind, m.height) {
+				keep = append(keep, m)
+			} else {
+				out = append(out, m)
+			}
+		}
+		if len(out) > 0 {
+			release = append(release, out)
 			n.counters["backlog_bursts"]++
-			n.counters["backlog_messages_released"] += int64(len(q))
+			n.counters["backlog_messages_released"] += int64(len(out))
+		}
+		if len(keep) > 0 {
+			n.held[to] = keep
+		} else {
 			delete(n.held, to)
 		}
 	}
@@ -189,9 +218,15 @@ func (n *simnet) setCfg(c netCfg) {
 	// the backlog of a link arrives in one burst: per sender in the order of
 	// sending, the senders concurrently
 	for _, q := range release {
-		bySender := map[int][]func(){}
+		// blocks and the rest travel separately (block batches are fetched by
+		// the synchroniser, payloads are pushed by the peers)
+		bySender := map[[2]int][]func(){}
 		for _, m := range q {
-			bySender[m.from] = append(bySender[m.from], m.run)
+			k := [2]int{m.from, 0}
+			if m.kind == "block" || m.kind == "syncblock" {
+				k[1] = 1
+			}
+			bySender[k] = append(bySender[k], m.run)
 		}
 		for _, fs := range bySender {
 			go func() {
@@ -235,6 +270,11 @@ func (n *simnet) snapshot() map[string]int64 {
 
 // send hands one message to the network. fn runs at the receiver.
 func (n *simnet) send(from, to int, kind, sub string, view int, fn func()) {
+	n.sendH(from, to, kind, sub, view, 0, fn)
+}
+
+// sendH is send for messages that belong to a height (payloads, blocks).
+func (n *simnet) sendH(from, to int, kind, sub string, view int, height uint32, fn func()) {
 	n.mu.Lock()
 	if n.closed {
 		n.mu.Unlock()
@@ -269,7 +309,7 @@ func (n *simnet) send(from, to int, kind, sub string, view int, fn func()) {
 			return
 		}
 	}
-	hold := c.flag(c.Hold, to)
+	hold := c.holds(to, kind, height)
 	// like a peer's send queue the path to a node is finite: a message storm
 	// loses messages instead of piling them up
 	if n.inflight[to] >= maxInflight || (hold && len(n.held[to]) >= 4*maxInflight) {
@@ -339,7 +379,7 @@ func (n *simnet) send(from, to int, kind, sub string, view int, fn func()) {
 		switch {
 		case hold:
 			n.counters["held_in_backlog"]++
-			n.held[to] = append(n.held[to], heldMsg{from, run})
+			n.held[to] = append(n.held[to], heldMsg{from, kind, height, run})
 		case p.d == 0:
 			go run()
 		default:
